@@ -154,7 +154,7 @@ def build(key, variant, i):
         return build_live_get(variant, i)
     if 'd' not in i:
         raise ValueError('model has no finite duration list (n too large or missing)')
-    mode = 'vod' if variant.startswith(('vod', 'fixups')) else 'live'
+    mode = 'vod' if variant.startswith(('vod', 'fixups', 'range')) else 'live'
     rep, ref = make_rep(i, mode)
     env = spec_env(rep, ref, i)
     env['self'] = rep
@@ -213,7 +213,8 @@ def build_gms(variant, i, mode, rep, ref, env, msi=None, setup=None):
     import flask
     from types import SimpleNamespace as NS
     fixups = variant.startswith('fixups')
-    if fixups:
+    rng = variant.startswith('range')
+    if fixups or rng:
         variant = 'vod-number-video'
     kind = variant.split('-')[1]
     content_type = variant.split('-')[2]
@@ -256,7 +257,11 @@ def build_gms(variant, i, mode, rep, ref, env, msi=None, setup=None):
             if not has_tfdt:
                 state['encoded'].__dict__.update(order=list(traf.order), trun_flags=traf.trun.flags,
                                                  tfhd_base=traf.tfhd.base_data_offset, tfdt_version=traf.tfdt.version)
-            dest.write(b'x' * 10)
+            if rng:
+                state['full'] = bytes((k * 11) % 253 for k in range(max(0, int(i['encoded_len']))))
+                dest.write(state['full'])
+            else:
+                dest.write(b'x' * 10)
 
     def load_fragment(media_file, mod, options, parse_samples=False):
         state['mod'] = mod
@@ -274,9 +279,17 @@ def build_gms(variant, i, mode, rep, ref, env, msi=None, setup=None):
         return a
     app = flask.Flask('replay')
     evgens = [NS(create_emsg_boxes=lambda **kw: ['emsg'] if i.get('has_event') else [])] if fixups else []
-    me = NS(check_for_synthetic_http_error=lambda *a: None, load_fragment=load_fragment,
+    def ghr(nbytes):
+        state['range_arg'] = nbytes
+        if rng and i.get('range_present'):
+            return (int(i['r_start']), int(i['r_end']), 206, {'Content-Range': 'x'})
+        return (None, None, 200, {})
+
+    def corrupt(representation, seg_num, atom, dest, options):
+        dest.seek(int(i['cursor_after_corruption']))
+    me = NS(check_for_synthetic_http_error=lambda *a: None, load_fragment=load_fragment, apply_video_corruption=corrupt,
             update_traf_if_required=lambda o, t: bool(i.get('traf_modified_by_drm')),
-            get_http_range=lambda n: (None, None, 200, {}),
+            get_http_range=ghr,
             calculate_media_segment_index=lambda m, r, t, n_, t_: msi(None, m, r, t, n_, t_))
     adp = lambda **kw: NS(content_type=kw['content_type'], representations=[], compute_av_values=lambda: None,
                           set_dash_timing=lambda t: None)
@@ -287,7 +300,7 @@ def build_gms(variant, i, mode, rep, ref, env, msi=None, setup=None):
         'mp4': real_mp4, 'models': NS(Stream=object, MediaFile=object),
         'OptionsContainer': object})
     media_file = NS(representation=rep, content_type=content_type, track_id=1, name='x', codec_fourcc='avc1')
-    options = NS(mode=mode, segmentTimeline=(kind == 'time'), videoCorruption=None)
+    options = NS(mode=mode, segmentTimeline=(kind == 'time'), videoCorruption=[int(i.get('corrupt_seg', 1))] if rng else None)
     rep.encrypted = fixups
     env.update(has_event=bool(i.get('has_event')), traf_modified_by_drm=bool(i.get('traf_modified_by_drm')),
                stored_base_data_offset=int(i.get('stored_base_data_offset', 0)))
@@ -299,10 +312,14 @@ def build_gms(variant, i, mode, rep, ref, env, msi=None, setup=None):
             if setup:
                 setup()
             r = fn(me, NS(timing_reference=ref), media_file, mode, options, num, tim)
-        return NS(status=r.status_code, data=state.get('encoded'))
+        return NS(status=r.status_code, data=r.get_data() if rng else state.get('encoded'))
 
     def post_env():
-        return {'served_mod': state.get('mod')}
+        return {'served_mod': state.get('mod'), 'range_arg': state.get('range_arg')}
+    if rng:
+        env.update({k: int(i[k]) for k in ('encoded_len', 'cursor_after_corruption', 'r_start', 'r_end', 'corrupt_seg')},
+                   range_present=bool(i['range_present']),
+                   is_window=lambda d, lo, hi: d == state['full'][lo:hi], is_whole=lambda d: d == state['full'])
     return {'env': env, 'call': call, 'post_env': post_env}
 
 
